@@ -378,6 +378,9 @@ int main(int argc, char** argv) {
         else { fprintf(stderr, "unknown bad op %s\n", what); return 9; }
         del_raw(bad);
       }
+      else if (!strcmp(what, "assign_strtable")) {      /* a source with len and get whose get refuses positions (a Table keyed on Strings) */
+        var tb = new_raw(Table, String, Int); set(tb, $S("a"), $I(1)); set(tb, $S("b"), $I(2));
+        HC_TRY(assign(c, tb)); del_raw(tb); }
       else if (!strcmp(what, "resize_huge")) { idx = 0; HC_TRY(resize(c, (size_t)1 << 60)); }                  /* more than can be had */
       else if (!strcmp(what, "resize_wrap")) { idx = 0; HC_TRY(resize(c, ((size_t)1 << 59) + 1)); }            /* the byte count wraps for 16- and 32-byte slots */
       else if (!strcmp(what, "resize_grow")) { idx = L + 3; HC_TRY(resize(c, (size_t)idx)); }   /* Tuple only */
